@@ -158,6 +158,21 @@ def run_case(case, R):
             nz['post'] = max(nz['post'], float(np.abs(out[0] - base[0]).max()))
             nz['lp'] = max(nz['lp'], float(np.abs(out[1] - base[1]).max()))
             nz['w'] = max(nz['w'], float(np.abs(out[2] - base[2]).max()))
+        if tied and s.init is not None:
+            # how fast does this fit drive two almost tied classes apart? Two runs whose tie is broken at the rounding level in two
+            # different ways are compared WITH EACH OTHER (never with the tied base run: a tie break by class position acts on exactly
+            # tied rows only, both of these runs are free of it and so measure the instability of the unchanged algorithm alone)
+            pair = []
+            for rep in range(2):
+                rr = np.random.default_rng([*case['rs'], 9, rep])
+                ini = np.array(s.init, dtype=float)
+                ini = ini * (1 + 2.0 ** -50 * rr.uniform(-1, 1, size=ini.shape))
+                tot = ini.sum(-2, keepdims=True)
+                pair.append(run(ini / np.where(tot > 0, tot, 1.0), s.mask))
+            for a, b in zip(pair[0][3][1:], pair[1][3][1:]):
+                nz['trace'] = max(nz['trace'], float(np.abs(a['affiliation'] - b['affiliation']).max()))
+            for j, k in enumerate(('post', 'lp', 'w')):
+                nz[k] = max(nz[k], float(np.abs(pair[0][j] - pair[1][j]).max()))
         return nz
 
     judge = diff.Judge(R, noise_fn)
